@@ -1,3 +1,4 @@
 pub mod c08;
 pub mod c17;
 pub mod c19;
+pub mod c09;
